@@ -21,6 +21,22 @@ import (
 type lockRun struct {
 	dir     string
 	handles map[string]klevdb.Log
+	rw      map[string]bool // handle opened read-write
+}
+
+func newestLog(dir string) string {
+	ents, _ := os.ReadDir(dir)
+	var names []string
+	for _, e := range ents {
+		if strings.HasSuffix(e.Name(), ".log") {
+			names = append(names, e.Name())
+		}
+	}
+	sort.Strings(names)
+	if len(names) == 0 {
+		return ""
+	}
+	return filepath.Join(dir, names[len(names)-1])
 }
 
 func classifyOpen(err error) string {
@@ -93,6 +109,36 @@ func (lr *lockRun) exec(line string) string {
 			_ = os.WriteFile(ix, append(append([]byte(nil), saved...), 0x01, 0x02, 0x03), 0600)
 			opts.Check = true
 		}
+		if m["fail"] == "2" {
+			// a read-only Open with Recover on a torn head log: it must fail and change no file
+			// (only issued while no writer is open)
+			lp := newestLog(lr.dir)
+			savedLog, _ := os.ReadFile(lp)
+			if len(savedLog) < 40 {
+				return "bad-op"
+			}
+			_ = os.WriteFile(lp, savedLog[:len(savedLog)-3], 0600)
+			d1 := logDigest(lr.dir)
+			opts.Recover = true
+			l, err := klevdb.Open(lr.dir, opts)
+			d2 := logDigest(lr.dir)
+			if err == nil {
+				_ = l.Close()
+			}
+			_ = os.WriteFile(lp, savedLog, 0600)
+			same := "same"
+			if d1 != d2 {
+				same = "changed"
+				if ix := newestIndex(lr.dir); ix != "" {
+					// the index may have been rewritten too; it is derived data and is rebuilt
+					_ = os.Remove(ix)
+				}
+			}
+			if err == nil {
+				return "ok " + same
+			}
+			return classifyOpen(err) + " " + same
+		}
 		l, err := klevdb.Open(lr.dir, opts)
 		if ix != "" {
 			_ = os.WriteFile(ix, saved, 0600)
@@ -101,6 +147,9 @@ func (lr *lockRun) exec(line string) string {
 			return classifyOpen(err)
 		}
 		lr.handles[k] = l
+		if !opts.Readonly {
+			lr.rw[k] = true
+		}
 		return "ok"
 	case "mh.close":
 		l := lr.handles[t[1]]
@@ -108,6 +157,7 @@ func (lr *lockRun) exec(line string) string {
 			return "err closed"
 		}
 		delete(lr.handles, t[1])
+		delete(lr.rw, t[1])
 		if err := l.Close(); err != nil {
 			return errRes(err)
 		}
@@ -148,12 +198,13 @@ func (lr *lockRun) closeAll() {
 	for k, l := range lr.handles {
 		_ = l.Close()
 		delete(lr.handles, k)
+		delete(lr.rw, k)
 	}
 }
 
 func genLock(w *bufio.Writer, root string, seed uint64, n, length int) {
 	r := &rng{s: seed}
-	lr := &lockRun{dir: filepath.Join(root, "mh"), handles: map[string]klevdb.Log{}}
+	lr := &lockRun{dir: filepath.Join(root, "mh"), handles: map[string]klevdb.Log{}, rw: map[string]bool{}}
 	emit := func(line string) string {
 		res := lr.exec(line)
 		fmt.Fprintf(w, "%s => %s\n", line, res)
@@ -175,7 +226,11 @@ func genLock(w *bufio.Writer, root string, seed uint64, n, length int) {
 			case 2, 3:
 				emit(fmt.Sprintf("mh.open %d ro=1 fail=0", k))
 			case 4:
-				emit(fmt.Sprintf("mh.open %d ro=%d fail=1", k, r.intn(2)))
+				if len(lr.rw) == 0 && lr.handles[fmt.Sprint(k)] == nil && r.chance(40) {
+					emit(fmt.Sprintf("mh.open %d ro=1 fail=2", k))
+				} else {
+					emit(fmt.Sprintf("mh.open %d ro=%d fail=1", k, r.intn(2)))
+				}
 			case 5, 6:
 				emit(fmt.Sprintf("mh.close %d", k))
 			case 7:
